@@ -127,6 +127,10 @@ def run(ctx, only=None):
     rng = random.Random(ctx.seed)
     n = 2500 if ctx.quick() else 40000
     texts = inputs.mixed_stream(rng, n) + [docgen.gen_doc(rng)[0] for _ in range(n // 3)]
+    # designed: scalar attributes at the edge of their range - headings of five and six '#' behind the permitted indentation, at every depth;
+    # ordered lists that start at 0, at the largest number, with leading zeros
+    texts += ['   ###### six\n', '  ##### five\n', ' ###### six ######\n', '> -   ###### x\n', '- a\n\n   ##### b\n', '>   ###### q\n>  ##### r\n',
+              '0. zero\n', '999999999. big\n', '007) bond\n1) next\n', '> 0) a\n> 1) b\n', '- 00. x\n']
     jobs = [(t, c, rng.randint(0, 10 ** 9)) for t in texts for c in (0, 1, 2, 3)]
     with mp.Pool(core.NPROC) as pool:
         res = pool.map(worker, jobs, chunksize=50)
